@@ -138,6 +138,9 @@ func runC01(args []string) error {
 	for _, c := range c1IdentityCases(r.fork(), sm.count) {
 		add(c)
 	}
+	for _, c := range c1NestCases(r.fork(), sm.count) {
+		add(c)
+	}
 	for _, c := range c1RegionCases(r.fork(), *tier == "thorough") {
 		add(c)
 	}
